@@ -25,6 +25,7 @@ Range(f)    == {f[i] : i \in 1..Len(f)}
 Undefined ==
   /\ HasEv
   /\ \/ Ev.a = "set_param" /\ ~SetParamDefined(st, Ev.t, Ev.name, Ev.d)
+     \/ Ev.a = "create_trial" /\ ~CreateTrialDefined(st, Ev.s, Ev.tm)
      \/ Ev.a = "set_state" /\ ~SetStateDefined(Ev.state, Ev.values)
   /\ PrintT(<<"UNDEF", Trace.tid, l>>)
   /\ l' = Len(Events) + 1 /\ UNCHANGED <<tix, st, rawS, rawT, flags>>
@@ -41,7 +42,7 @@ TCreateStudy ==
        /\ UNCHANGED rawT
 
 TCreateTrial ==
-  /\ Is("create_trial")
+  /\ Is("create_trial") /\ CreateTrialDefined(st, Ev.s, Ev.tm)
   /\ LET r == DoCreateTrial(st, Ev.s, Ev.tm) IN
        /\ st' = r.st /\ RetEq(Ev.ret, r.ret) /\ PostOK(r.st)
        /\ IF r.ret.k = "ok"
